@@ -382,6 +382,7 @@ type genCfg struct {
 	twoDbs        bool
 	forceFastKeys uint
 	pipelines     bool
+	noMonitor     bool
 }
 
 func pickU16(r *ssched.Rand, xs []uint16) uint16 { return xs[r.Intn(len(xs))] }
@@ -464,7 +465,7 @@ func genMs(r *ssched.Rand) uint16 {
 func genCore(prop string, seed uint64, tier string, g genCfg) *Scenario {
 	r := ssched.Sub(seed, "gen")
 	pipelineOK = g.pipelines
-	body := &CoreBody{Serial: g.serial, NKeys: between(r, g.nKeys), NLids: between(r, g.nLids), Profile: g.profile, Dbs: []int{0}}
+	body := &CoreBody{Serial: g.serial, NKeys: between(r, g.nKeys), NLids: between(r, g.nLids), Profile: g.profile, Dbs: []int{0}, NoMonitor: g.noMonitor}
 	if g.twoDbs && r.Intn(3) == 0 {
 		body.Dbs = []int{0, 3}
 	}
@@ -743,6 +744,8 @@ func (cr *coreRun) startDrain() {
 	}
 	ci := len(cr.clients)
 	cr.clients = append(cr.clients, nil)
+	drainStart := w.now()
+	stuckSeen := map[*LockManager]bool{}
 	ssched.SpawnOn(0, "drainclient", func() {
 		c := newMemClient(w, cr.h, cr.node, ci)
 		cr.clients[ci] = c
@@ -762,6 +765,19 @@ func (cr *coreRun) startDrain() {
 					}
 					for _, m := range allManagers(db) {
 						hs := holdersOf(m)
+						stuck := 0
+						for _, l := range hs {
+							if l.ackCount != 0xff && w.now().Sub(drainStart) > 90*time.Second {
+								stuck++
+							}
+						}
+						if stuck > 0 && stuck == len(hs) && len(waitersOf(m)) == 0 {
+							if !stuckSeen[m] {
+								stuckSeen[m] = true
+								w.violate("C03", "ack_hold_stuck", "key %x db %d: a hold that awaits its acknowledgement is still pending 90 s after the last request was sent: its requester is never answered and the hold never ends", m.lockKey, dbi)
+							}
+							continue
+						}
 						if len(hs) > 0 || len(waitersOf(m)) > 0 {
 							busy = true
 						}
